@@ -227,11 +227,12 @@ func runValidate(v *revocation, chain []*x509.Certificate) (res []*result.CertRe
 // ~3*10^4 paths; 0..4 with 0..2 did not finish within the 90 min budget - 1.3*10^6 paths - and is not registered;
 // 0..5 with 0..1 is)
 var longChains bool
+var longChainMax = 5
 
 func setup(nMaxQuick, nMaxThorough int) (*revocation, []*x509.Certificate, int) {
 	nMax, uMax := rt.Bound("chain_len_max", nMaxQuick, nMaxQuick), rt.Bound("urls_per_kind_max", 2, 2)
 	if longChains {
-		nMax, uMax = rt.Bound("long_chain_len_max", 5, 5), rt.Bound("long_urls_per_kind_max", 1, 1)
+		nMax, uMax = rt.Bound("long_chain_len_max", longChainMax, longChainMax), rt.Bound("long_urls_per_kind_max", 1, 1)
 	}
 	n := rt.Choose("n", 1+nMax)
 	chain := buildChain(n, uMax)
@@ -338,7 +339,8 @@ func H_C12_orch() { H_C11_orch() }
 // thorough tier: chains up to 5 with at most one URL per kind
 func H_C11_orch_long() { longChains = true; H_C11_orch() }
 func H_C12_orch_long() { longChains = true; H_C11_orch() }
-func H_C17_orch_long() { longChains = true; H_C17_orch() }
+// (with panics as a further outcome of every check, chains up to 5 exceed the path budget of 3*10^6: up to 4)
+func H_C17_orch_long() { longChains = true; longChainMax = 4; H_C17_orch() }
 func H_C06_orch_long() { longChains = true; H_C06_orch() }
 
 // C17 entry: the summaries may also PANIC (a caller-supplied fetcher or transport may). Asserted: a panic inside a
